@@ -61,7 +61,7 @@ try:
                               "messages": [l.strip() for l in o.splitlines() if l.startswith("   ") and not l.startswith("   ok") and not l.startswith("   rule") and "analysed" not in l and "evidence" not in l][:6]}
     shutil.rmtree(evdir, ignore_errors=True)
 finally:
-    sh("git -C /repo checkout -- .")
+    sh("git -C /repo checkout -- . && git -C /repo clean -fdq")
 meta["checks_reporting"] = results
 meta["silent"] = not results
 print("noisy checks:", json.dumps(results, indent=1) if results else "NONE (all 18 silent)")
